@@ -31,7 +31,7 @@ for d in sorted(glob.glob(os.path.join(V, 'seeded', 'C*'))):
     rows.append('| %s | %s | %s | %s | %s | %s |' % (name, status, det.get('check', '-'), det.get('violations_reported'), (meta.get('summary') or '').replace('|', '/').replace('\n', ' ')[:110], note.replace('|', '/')))
 out = ['# Seeded changes and the checks that catch them', '',
        'Each directory holds patch.diff (against /repo HEAD), demo/ and meta.json. `tools/seed_confirm.sh <dir>` re-confirms a change, `tools/seed_run.sh <dir> <Cxx>` applies it to /repo, runs the check and undoes it.',
-       'Directories `Cxx_mN` are from the first seeding round, `Cxx_r2mN` from the second. The VIOLATION counts are from the last full run of every seed against the committed checks.', '',
+       'Directories `Cxx_mN` are from the first seeding round, `Cxx_rKmN` from round K (2..6). The VIOLATION counts are from the last run of each seed against the checks (rounds 1-4: full regression at the end of round 4; later rounds: the run recorded in the round).', '',
        '| seed | status | check | VIOLATION lines | what the change does | note |', '|---|---|---|---|---|---|'] + rows
 valid = [r for r in rows if '| valid |' in r]
 missed = [r for r in valid if re.search(r'\| (0|None) \|', r)]
